@@ -203,6 +203,16 @@ def run(tier):
         scen = [gen_scenario(chk.rng, B) for _ in range(n_scen)]
         small = [gen_scenario(chk.rng, B, small=True) for _ in range(n_dfs)]
         lines, meta = [], []
+        corpus = os.path.join(vlib.TOOLS, "corpus", "C17", "schedules.txt")
+        n_corpus = 0
+        if os.path.exists(corpus):
+            for ln in open(corpus):
+                p5 = ln.split()
+                if ln.startswith("#") or len(p5) != 5:
+                    continue
+                lines.append(f"loose {p5[1]} {p5[2]} {p5[3]} " + p5[4].replace(",", " "))
+                meta.append((p5[2], p5[3]))
+                n_corpus += 1
         for (init, ths) in scen:
             for _ in range(n_seeds):
                 sw = chk.rng.choice([0, 10, 40])
@@ -269,7 +279,7 @@ def run(tier):
                     addrs.add(o[1] & ~7 if o[0] == "store" else o[1])
             if len({a % B for a in addrs}) < len(addrs):
                 hist["collide"] += 1
-        chk.coverage["sched_trace"] = {"executions": len(runs), "scenarios": len(scen) + len(small), "dfs": dfs_info[:80],
+        chk.coverage["sched_trace"] = {"corpus_schedules": n_corpus, "executions": len(runs), "scenarios": len(scen) + len(small), "dfs": dfs_info[:80],
                                        "real_seconds": round(t_real, 1), "bucket_count": B}
         chk.coverage["histograms"] = hist
         chk.coverage["traces_validated_against_impl"] = len(runs) if model else 0
